@@ -23,7 +23,9 @@ VARIANT = "asan"
 RULE = ("random and hand-built schemas (option kinds x flags x nesting) x context flags x grammar-derived texts, then token "
         "deletion/duplication/swap/replacement, 1-3 texts parsed into the same context; compared: return code and full tree "
         "dump (values, counts, titles, flag bits); non-trivial = model visited a section or list and either changed a value "
-        "or rejected after >= 2 tokens; distinct by SHA-1 of the case")
+        "or rejected after >= 2 tokens; distinct by SHA-1 of the case. Plus EVERY token sequence up to length 3 (quick) / 4 (thorough) over a "
+        "14-token alphabet (declared scalar / list / section / titled multi section names, an undeclared name, = += { } , ( ) and two values) with and "
+        "without IGNORE_UNKNOWN, and a sample of longer ones")
 
 
 def hand_schemas():
@@ -50,11 +52,39 @@ def mk_case(cid, opts, ctxflags, texts, meta):
     return Case(cid, lines, meta)
 
 
-def generate(rng, tier):
+EXH_ALPHABET = [b"i", b"l", b"sec", b"m", b"zz", b"=", b"+=", b"{", b"}", b",", b"1", b'"t"', b"(", b")"]
+
+
+def exhaustive_tokens(rng, tier):
+    """every token sequence up to a length bound over a 14-token alphabet (declared scalar / list / plain and titled
+    multi section names, an undeclared name, every punctuation token, a number, a string), with and without
+    IGNORE_UNKNOWN: the parser's 15 states x every token, by enumeration rather than by grammar"""
+    import itertools
+    sub = [Opt("i", "int", 0, 3)]
+    opts = [Opt("i", "int", 0, 7), Opt("l", "int", LIST, [b"1", b"2"]), Opt("sec", "sec", 0, None, "-", sub),
+            Opt("m", "sec", MULTI | TITLE, None, "-", sub)]
+    full = 3 if tier == "quick" else 4
     cases = []
     n = 0
-    nschema = 250 if tier == "quick" else 4000
-    per = 30 if tier == "quick" else 80
+    for ctxflags in (0, IGNORE_UNKNOWN):
+        for k in range(1, full + 1):
+            for seq in itertools.product(EXH_ALPHABET, repeat=k):
+                cases.append(mk_case("x%d" % n, opts, ctxflags, [b" ".join(seq) + b"\n"], {"hand": True, "mutated": False, "ctxflags": ctxflags, "exh": k}))
+                n += 1
+        # a sample of longer sequences
+        for _ in range(1500 if tier == "quick" else 20000):
+            k = rng.randint(full + 1, full + 4)
+            seq = [rng.choice(EXH_ALPHABET) for _ in range(k)]
+            cases.append(mk_case("x%d" % n, opts, ctxflags, [b" ".join(seq) + b"\n"], {"hand": True, "mutated": False, "ctxflags": ctxflags, "exh": 0}))
+            n += 1
+    return cases
+
+
+def generate(rng, tier):
+    cases = exhaustive_tokens(rng, tier)
+    n = 0
+    nschema = 250 if tier == "quick" else 1500
+    per = 30 if tier == "quick" else 60
     schemas = [(s, True) for s in hand_schemas()]
     for _ in range(nschema):
         schemas.append((gen.rand_schema(rng), False))
@@ -98,6 +128,8 @@ def nontrivial(case, model_lines):
 
 def stats(case, model_lines):
     s = {"hand_schema" if case.meta.get("hand") else "random_schema": 1}
+    if "exh" in case.meta:
+        s["enumerated_len_%d" % case.meta["exh"] if case.meta["exh"] else "enumerated_sampled_longer"] = 1
     if case.meta.get("mutated"):
         s["mutated"] = 1
     s["accepted_parses"] = sum(1 for l in model_lines[1:] if l == "R 0")
